@@ -387,3 +387,7 @@ def run(ctx):
     for it, (st, kv) in (results[:2] + second[:2]):
         ctx.sample(dict(level=it[0], variant=it[1], probe=it[2], cls=it[3], verdict=kv.get("v"), stage=vc.c_stage(kv) if st == "ok" else st))
     return dict(level="proof", rule="one case = one (variant, level, probe class, probe, verdict, stage) of the real verifier compared with the decision model")
+
+
+def replay(ctx, rp):
+    return vc.replay(ctx, rp, san=False)
